@@ -123,7 +123,10 @@ def make_case(rng, b, fam, orient):
     s1, s2 = (str(x) for x in rng.choice(syms, size=2, replace=True))
     if b % 3 == 0:
         traj.displacements
-    r12 = radial_distribution_between_species(trajectory=traj, specie_1=s1, specie_2=s2, max_dist=max_dist, resolution=res)
+    if b % 2:
+        r12 = radial_distribution_between_species(trajectory=traj, specie_1=s1, specie_2=s2, max_dist=max_dist, resolution=res)
+    else:          # the same through the method on the trajectory
+        r12 = traj.radial_distribution_between_species(specie_1=s1, specie_2=s2, max_dist=max_dist, resolution=res)
     r21 = radial_distribution_between_species(trajectory=traj, specie_1=s2, specie_2=s1, max_dist=max_dist, resolution=res)
     vol = math.sqrt(float(np.linalg.det(np.array(G, dtype=float))))
 
@@ -148,7 +151,8 @@ def make_case(rng, b, fam, orient):
                      'meta': {'family': fam, 'orientation': orient, 'res': res, 'max_dist': max_dist, 'species': [s1, s2]}})
     # ---- per state
     try:
-        tr = traj.transitions_between_sites(structure, 'Li', site_radius=float(radius))
+        from ..sites_drive import transitions as _transitions
+        tr = _transitions(traj, structure, 'Li', site_radius=float(radius))
     except ValueError as e:
         if 'need at least one array' in str(e):      # no site change at all: outside the domain of the event builder
             return recs
